@@ -33,6 +33,7 @@ type xenv struct {
 	unsigned bool   // TSIG: send without TSIG
 	badKey   bool   // TSIG: sign with another secret
 	alter    bool   // flip a bit of the packed message after signing
+	alterTTL bool   // with alter: flip a bit of the TSIG record's TTL instead (signed with the variables of a first envelope)
 	macCut   int    // >= 0 with alter: also cut the MAC down to that many octets (a forged envelope with a short MAC)
 	cutAt    int    // >0: close the connection after this many octets of this message
 	opt      bool   // the envelope carries an additional section (an OPT record, as servers answering an EDNS0 query send)
@@ -151,7 +152,18 @@ func runTransfer(qtype uint16, qid uint16, qser uint32, envs []xenv, tsig bool) 
 			} else {
 				out, _ = m.Pack()
 			}
-			if e.alter && len(out) > 20 {
+			if e.alter && e.alterTTL && len(out) > 20 {
+				// the TTL of the TSIG record: behind its owner name, type and class
+				if f, ok := indepStrip(out); ok {
+					p := len(f.stripped)
+					for p < len(out) && out[p] != 0 {
+						p += 1 + int(out[p])
+					}
+					if p+9 <= len(out) {
+						out[p+1+4+3] ^= 0x01
+					}
+				}
+			} else if e.alter && len(out) > 20 {
 				out[2] ^= 0x01 // the RD flag: header flags are covered by the digest
 				if e.macCut >= 0 {
 					if t := truncateMAC(out, e.macCut); t != nil {
@@ -331,7 +343,84 @@ func readsSeen(res xfrResult, envs []xenv) int {
 	return len(res.envs)
 }
 
+// c15UDP: IXFR over a datagram connection (RFC 1995 section 2: "via UDP" when the answer fits): answers of 300 to 4000
+// octets in one datagram are delivered exactly.
+func c15UDP(c *Ctx) {
+	for _, nrec := range []int{1, 10, 30, 60, 150} {
+		pc, err := net.ListenPacket("udp", "127.0.0.1:0")
+		if err != nil {
+			return
+		}
+		q := new(dns.Msg)
+		q.SetIxfr("example.org.", 5, "ns.example.org.", "h.example.org.")
+		q.Id = 4242
+		soa := func(serial uint32) dns.RR {
+			return &dns.SOA{Hdr: dns.RR_Header{Name: "example.org.", Rrtype: dns.TypeSOA, Class: 1, Ttl: 60}, Ns: "ns.example.org.", Mbox: "h.example.org.", Serial: serial, Refresh: 1, Retry: 1, Expire: 1, Minttl: 1}
+		}
+		reply := new(dns.Msg)
+		reply.SetReply(q)
+		reply.Answer = []dns.RR{soa(9)}
+		for k := 0; k < nrec; k++ {
+			reply.Answer = append(reply.Answer, &dns.A{Hdr: dns.RR_Header{Name: fmt.Sprintf("host-%03d.example.org.", k), Rrtype: dns.TypeA, Class: 1, Ttl: 60}, A: []byte{10, 0, byte(k >> 8), byte(k)}})
+		}
+		reply.Answer = append(reply.Answer, soa(9))
+		rb, perr := reply.Pack()
+		if perr != nil {
+			pc.Close()
+			continue
+		}
+		go func() {
+			buf := make([]byte, 65535)
+			pc.SetDeadline(time.Now().Add(3 * time.Second))
+			_, addr, err := pc.ReadFrom(buf)
+			if err == nil {
+				pc.WriteTo(rb, addr)
+			}
+		}()
+		conn, derr := net.Dial("udp", pc.LocalAddr().String())
+		if derr != nil {
+			pc.Close()
+			continue
+		}
+		tr := &dns.Transfer{Conn: &dns.Conn{Conn: conn}, ReadTimeout: time.Second, WriteTimeout: time.Second}
+		var got []string
+		errText := ""
+		if ch, err := tr.In(q, ""); err != nil {
+			errText = "in: " + err.Error()
+		} else {
+			timeout := time.After(4 * time.Second)
+		loop:
+			for {
+				select {
+				case e, ok := <-ch:
+					if !ok {
+						break loop
+					}
+					if e.Error != nil {
+						errText = e.Error.Error()
+					}
+					for _, rr := range e.RR {
+						got = append(got, rr.String())
+					}
+				case <-timeout:
+					errText = "hang"
+					break loop
+				}
+			}
+		}
+		var want []string
+		for _, rr := range reply.Answer {
+			want = append(want, rr.String())
+		}
+		c.Pred("udp", "ixfr-over-udp-delivered", fmt.Sprintf("%d records, %d octets in one datagram", len(reply.Answer), len(rb)),
+			errText == "" && strings.Join(got, "\n") == strings.Join(want, "\n"), fmt.Sprintf("%d records, error %q", len(got), errText), "all records, no error", true)
+		conn.Close()
+		pc.Close()
+	}
+}
+
 func runC15(c *Ctx) {
+	c15UDP(c)
 	r := c.R
 	c.Res.Rule = "zones of 1..n records x all compositions into envelopes (exhaustive for small zones), AXFR and IXFR with 0..3 difference sequences, up-to-date and AXFR-style answers; faults: wrong ID, error RCODE in any envelope, non-SOA first, empty envelopes, connection closed at an envelope or octet boundary, TSIG unsigned / wrong key / altered / reordered envelopes; distinct by content"
 	// 1. AXFR: exhaustive compositions of small zones
@@ -446,7 +535,7 @@ func runC15(c *Ctx) {
 		stream = append(stream, xrec{soa: true, serial: 9})
 		comps := compositions(len(stream))
 		envs := splitStream(stream, comps[r.Intn(len(comps))], 82)
-		fault := r.Intn(6)
+		fault := r.Intn(7)
 		j := r.Intn(len(envs))
 		desc := "none"
 		switch fault {
@@ -471,6 +560,11 @@ func runC15(c *Ctx) {
 			}
 		case 5:
 			fault = 0
+		case 6:
+			// the TTL of the first envelope's TSIG record is one of the signed variables (RFC 8945 4.3.3)
+			j = 0
+			envs[0].alter, envs[0].alterTTL, envs[0].macCut = true, true, -1
+			desc = "tsig-ttl-altered@0"
 		}
 		res := runTransfer(dns.TypeAXFR, 82, 0, envs, true)
 		xfrSwap = -1
